@@ -39,6 +39,8 @@ def oracle(env):
                 env.fail({"kind": "bytes-roundtrip", "bytes": list(bs)}, f"raises {type(e).__name__}")
                 break
     env.note("byte_strings_roundtripped", n)
+    n += long_roundtrips(env, encoding)
+    n += keys_in_context(env, lexer, t)
     # tables
     pc = t["parser"]
     openers = [o for o, _, _ in pc["structure_info"]]
@@ -91,6 +93,105 @@ def oracle(env):
     env.count(n, (f"table:{e['key']}" for e in t["elements"]))
 
 
+def magic_sequences():
+    """Byte sequences that tools treat specially (a general family, not tied to any change): every byte order mark and
+    signature constant of Python's own `codecs` module, line-end / end-of-file / shebang / NUL / DEL conventions, and
+    every byte three and four times in a row."""
+    import codecs
+    out = [getattr(codecs, name) for name in sorted(dir(codecs)) if name.startswith("BOM") and isinstance(getattr(codecs, name), bytes)]
+    out += [b"#!", b"\r\n", b"\n\r", b"\r", b"\n", b"\x00", b"\x00\x00", b"\x1a", b"\x04", b"\x7f", b"\xff", b"\xff\xff", b"\xfe\xff\xfe\xff",
+            b"\xef\xbf\xbd", b"\xc0\x80", b"\x1b[", b"%!", b"PK", b"\x89PNG", b"GIF8", b"\x7fELF", b"MZ", b"<?", b"<!"]
+    out += [bytes([b]) * k for b in range(256) for k in (3, 4)]
+    return list(dict.fromkeys(out))
+
+
+def long_roundtrips(env, encoding):
+    """bytes -> text -> bytes and text -> bytes -> text on LONG inputs: every magic sequence at the start, in the middle and
+    at the end of random filler (and alone, doubled), random byte strings up to length 200, every 3-byte string over the bytes
+    that occur in a magic sequence shorter than 5 (those are the sequences a special case could be keyed on)."""
+    import itertools
+    rng = env.rng
+    magic = magic_sequences()
+    cases = []
+    for m in magic:
+        f1 = bytes(rng.randrange(256) for _ in range(rng.randrange(1, 9)))
+        f2 = bytes(rng.randrange(256) for _ in range(rng.randrange(1, 9)))
+        cases += [m, m + m, m + f1, f1 + m, f1 + m + f2, m + f1 + m]
+    for _ in range(env.budget(1500, 10000)):
+        cases.append(bytes(rng.randrange(256) for _ in range(rng.choice([3, 3, 4, 5, 8, 16, 33, 64, 200]))))
+    special = sorted({b for m in magic if len(m) < 5 and len(set(m)) > 1 for b in m})[: env.budget(22, 40)]
+    cases += [bytes(t3) for t3 in itertools.product(special, repeat=3)]
+    cases = list(dict.fromkeys(cases))
+    cp = encoding.codepage
+    bad = 0
+    for bs in cases:
+        try:
+            txt = encoding.vyxal_to_utf8(list(bs))
+            back = encoding.utf8_to_vyxal(txt)
+            expect = "".join(cp[b] for b in bs)
+            if len(txt) != len(bs) or [ord(c) for c in back] != list(bs) or txt != expect:
+                bad += 1
+                if bad <= 3:
+                    env.fail({"kind": "bytes-roundtrip", "bytes": list(bs)},
+                             f"bytes->text gives {txt!r} ({len(txt)} characters for {len(bs)} bytes), back to bytes {[ord(c) for c in back]}")
+            elif encoding.vyxal_to_utf8([ord(c) for c in encoding.utf8_to_vyxal(expect)]) != expect:
+                bad += 1
+                if bad <= 3:
+                    env.fail({"kind": "text-roundtrip", "text": expect}, "text->bytes->text is not the identity")
+        except Exception as e:  # noqa: BLE001
+            bad += 1
+            if bad <= 3:
+                env.fail({"kind": "bytes-roundtrip", "bytes": list(bs)}, f"raises {type(e).__name__}")
+    env.note("long_roundtrips", {"cases": len(cases), "magic_sequences": len(magic), "three_byte_alphabet": len(special), "failed": bad})
+    return len(cases)
+
+
+def keys_in_context(env, lexer, t):
+    """`is scanned by the lexer as exactly one token` in context, not only alone: between a complete token on the left (numbers
+    of every spelling, a closed string, a one-character element) and a token on the right, every table key, modifier and
+    structure character must come out as its own GENERAL token and leave its neighbours' tokens as they are alone."""
+    pc = t["parser"]
+    lx = t["lexer"]
+    keys = [e["key"] for e in t["elements"]] + [m["key"] for m in t["modifiers"]]
+    keys += [o for o, _, _ in pc["structure_info"]] + [c for _, _, c in pc["structure_info"]]
+    keys = list(dict.fromkeys(k for k in keys if k))
+    lefts = ["7", "12", "1.5", "3°4", "0", "0.5", "1.", "`x`", "+", "7 "]
+    rights = ["", "7", "+", "`x`", " 1"]
+    consuming = set(lx["lex_escape"] + lx["lex_twochar"] + lx["lex_var"] + lx["lex_comment"] + lx["lex_digraph"] + lx["lex_cpnum"] + lx["lex_string_delims"])
+
+    def toks(src):
+        return [(str(x.name), x.value) for x in lexer.tokenise(src)]
+    n = bad = 0
+    alone = {}
+    for k in keys:
+        if k[-1] in consuming or k[0] in lx["lex_number_chars"]:
+            continue                  # the key's last character takes what follows / the key starts like a number: documented lexing
+        try:
+            alone[k] = toks(k)
+        except Exception:  # noqa: BLE001
+            continue
+        if len(alone[k]) != 1:
+            continue                  # reported by the table check below
+        for left in lefts:
+            for right in rights:
+                if right and right[0] in lx["lex_number_chars"] and k[-1] in lx["lex_number_chars"]:
+                    continue
+                n += 1
+                try:
+                    got = toks(left + k + right)
+                    want = toks(left) + alone[k] + toks(right)
+                except Exception as e:  # noqa: BLE001
+                    got, want = f"raises {type(e).__name__}", None
+                if got != want:
+                    bad += 1
+                    if bad <= 3:
+                        env.fail({"kind": "key-in-context", "key": k, "program": left + k + right},
+                                 f"tokenise gives {got!r}; the key alone is {alone[k]!r}, its neighbours alone {toks(left)!r} and {toks(right)!r}",
+                                 cls=f"key-in-context:{k}")
+    env.note("keys_in_context", {"cases": n, "left_contexts": lefts, "right_contexts": rights, "failed": bad})
+    return n
+
+
 def encoding_correspondence(env):
     V.import_repo()
     from vyxal import encoding
@@ -106,12 +207,38 @@ def encoding_correspondence(env):
     for i in bad:
         env.disagree("encoding", {"byte": cases[i][0]}, "(model disagrees)", cases[i][1])
     env.count(len(cases), (f"byte:{b}" for b, _ in cases))
+    # the two functions as wholes: to_utf8 / to_vyxal of the model on byte strings of every length class
+    rng = env.rng
+    strs = [bytes(rng.randrange(256) for _ in range(rng.choice([0, 1, 2, 3, 3, 4, 7, 20, 60]))) for _ in range(env.budget(600, 4000))]
+    strs += [m + bytes([rng.randrange(256)]) for m in magic_sequences() if len(m) <= 8][:700]
+    fc = []
+    for bs in strs:
+        try:
+            txt = encoding.vyxal_to_utf8(list(bs))
+            back = [ord(c) for c in encoding.utf8_to_vyxal(txt)]
+        except Exception:  # noqa: BLE001
+            txt, back = "\x00ERR", [999]
+        fc.append((list(bs), [ord(c) for c in txt], back))
+    chk2 = ("fun c : (list N * list N * list N) => match c with (bs, txt, back) => match to_utf8 bs with "
+            "| Some t => str_eqb t txt && match to_vyxal t with Some b => str_eqb b back | None => false end | None => false end end")
+
+    def lit(lo, hi):
+        def ln(l):
+            return "[" + "; ".join(str(x) for x in l) + "]%N" if l else "([] : list N)"
+        return "[" + "; ".join(f"({ln(a)}, {ln(b)}, {ln(c)})" for a, b, c in fc[lo:hi]) + "]"
+    ok, bad, logs = env.coq_mismatches("encfn", pre, lit, chk2, len(fc), shard=500)
+    if not ok:
+        env.proof_broken("encoding function correspondence cases failed to evaluate", logs)
+    for i in bad:
+        env.disagree("encoding functions (to_utf8 / to_vyxal)", {"bytes": fc[i][0]}, "(model disagrees)", {"text": fc[i][1], "back": fc[i][2]})
+    env.count(len(fc), ())
+    env.note("encoding_function_cases", len(fc))
 
 
 def run(env):
     env.rule = ("lexer model vs implementation on every string of length <= L over a 24-symbol lexical alphabet (L=3 quick, 4 thorough), "
-                "every table key, every code-page character and random strings to length 60; byte<->character model vs implementation on all 256 bytes; "
-                "property oracle on the implementation: all byte strings of length <= 2, every key of the element/modifier/structure tables, "
+                "every table key, every code-page character and random strings to length 60; byte<->character model vs implementation on all 256 bytes and the two conversion functions on byte strings of every length class; "
+                "property oracle on the implementation: all byte strings of length <= 2, magic sequences (codecs signatures, line-end / EOF conventions, byte runs) in every position of random filler, random byte strings to length 200, every key between complete neighbour tokens, every key of the element/modifier/structure tables, "
                 "every documented entry. Non-trivial = produces at least one token / is a table entry; distinct by canonical input.")
     items = lexcorr.gen_strings(env, env.tables, env.budget(3, 4), env.budget(1500, 20000))
     lexcorr.check(env, items)
